@@ -215,7 +215,12 @@ def run_tcp_server_conn_session(case: dict) -> tuple[list[str], dict]:
     script = run.Script(case, log)
     be = MemBackend()
     peer = (HOST, ACCEPTED_PORT0)
-    conn = run.Connection(case, be=be, adopt=lambda obj, which: be._adopt(obj, inet_extra((HOST, LISTEN_PORT), peer)))
+    conn = run.make_connection(case, be=be, adopt=lambda obj, which: be._adopt(obj, inet_extra((HOST, LISTEN_PORT), peer)))
+    ssl_kw: dict[str, Any] = {}
+    if conn.kind == "tls":
+        # the in-memory listener accepts the wire; AsyncTCPNetworkServer(ssl=...) puts its own AsyncTLSListener in front
+        from vlib import c15_tls
+        ssl_kw["ssl"] = c15_tls.server_context()
     log.probe = lambda: conn.reader.nread
     listener = env.MemListener([conn.transport], be=be)
     be.listener = be._adopt(listener, inet_extra((HOST, LISTEN_PORT)))
@@ -225,7 +230,7 @@ def run_tcp_server_conn_session(case: dict) -> tuple[list[str], dict]:
     async def main() -> None:
         server = AsyncTCPNetworkServer(
             case.get("host", HOST), 0, proto, run.ScriptedHandler(script), backend=be,
-            max_recv_size=case.get("max_recv", 16384), log_client_connection=False,
+            max_recv_size=case.get("max_recv", 16384), log_client_connection=False, **ssl_kw,
         )
         assert server.backend() is be and conn.transport.backend() is be and listener.backend() is be
         t = asyncio.ensure_future(server.serve_forever())
